@@ -55,15 +55,16 @@ def run(ctx):
                     % (r["mode"], r["script"], r["key"], r["status"], r["saved"], r.get("skipped"), r["insnap"], r["extra"], r["content_ok"], r["err"][-160:], r["detail"]), r)
     res = ctx.go_results[-1]
     cnt = res.get("counters", {})
-    if cnt.get("runs_binary", 0) < 3:
-        raise verif.MachineryError("only %d runs of the restic binary" % cnt.get("runs_binary", 0))
-    if res["distinct_nontrivial"] < 20:
-        raise verif.MachineryError("only %d runs with a delivered fault" % res["distinct_nontrivial"])
+    if not ctx.violations:  # (a run cut short by crashes of the backup command is a verdict, not a machinery problem)
+        if cnt.get("runs_binary", 0) < 3:
+            raise verif.MachineryError("only %d runs of the restic binary" % cnt.get("runs_binary", 0))
+        if res["distinct_nontrivial"] < 20:
+            raise verif.MachineryError("only %d runs with a delivered fault" % res["distinct_nontrivial"])
     samples = verif.samples_from(lines, 3)
     cov = {"evaluations": n, "distinct_nontrivial": res["distinct_nontrivial"], "rule": res["rule"], "samples": samples,
            "scripts_enumerated_by_tlc": nscripts, "records_checked_by_tlc": n, "records_rejected": len(bad),
            "counters": cnt, "exhaustive": False,
-           "selection": "quick: per (item kind, fault class) of the alphabet one single-fault script with the fault below the target directory and one with the fault on a second command-line target (seeded choice of shape/position, one of the two with a 1.3 MB file), 3 clean and 20 pair scripts; a quarter of the scripts additionally on top of a parent snapshot, a quarter additionally with --skip-if-unchanged on top of a parent taken under the same faults; thorough: all clean scripts, seeded 1/2 of the single-fault and 1/8 of the pair scripts (different seeds cover different parts)"}
+           "selection": "quick: per (item kind, fault class) of the alphabet one single-fault script with the fault below the target directory and one with the fault on a second command-line target (seeded choice of shape/position, one of the two with a 1.3 MB file), 3 clean and 20 pair scripts; a quarter of the scripts additionally on top of a parent snapshot, a quarter additionally with --skip-if-unchanged on top of a parent taken under the same faults; thorough: all clean scripts, seeded 1/3 of the single-fault and 1/10 of the pair scripts (different seeds cover different parts)"}
     return verif.finish(ctx, "fault_enumeration", cov, [
         "faults are injected by a wrapping fs.FS behind the existing backupFSTestHook (in-process) and by permission bits / missing targets for an unprivileged run of the binary built from the tree",
         "a fault counts only when the file system really returned it to restic (delivered); items below a faulted directory are never reached",
